@@ -126,6 +126,7 @@ class Engine:
         self.multi = False
         self.seed = 0
         self.hooks = {}
+        self.watch = {}
         from . import models as _m
         _m.install(self)
 
@@ -658,9 +659,17 @@ class Engine:
             return self.make_closure(rv[1], [self.operand(fr, v) for _, v in rv[2]])
         if k == 'coroutine':
             ups = [self.operand(fr, v) for _, v in rv[2]]
-            body = self.fns.get(fr.fn.name + '::{closure#0}')
-            if body is None or '@' + rv[1].split('@')[-1] not in body.locals.get('_1', '') + '@' + rv[1].split('@')[-1]:
-                body = self.closures_by_loc.get(rv[1].split('@', 1)[1]) or body
+            loc = rv[1].split('@', 1)[1].split(' (#')[0] if '@' in rv[1] else None
+            body = None
+            # an async block inside this function: the nested body whose state type mentions the block's location
+            if loc:
+                for n, f2 in self.fns.items():
+                    if n.startswith(fr.fn.name + '::{closure#') and n.count('{closure#') == fr.fn.name.count('{closure#') + 1 \
+                            and loc in f2.locals.get('_1', ''):
+                        body = f2
+                        break
+            if body is None:
+                body = self.fns.get(fr.fn.name + '::{closure#0}')
             if body is None:
                 raise Unsupported('coroutine body ' + rv[1])
             return Coro(body, ups)
@@ -763,6 +772,10 @@ class Engine:
                 raise Unsupported(f'arity mismatch calling {f.short}: {len(args)} vs {len(f.params)}')
         for p, a in zip(f.params, args):
             self.heap[loc[p]] = a
+        if self.watch:
+            cb = self.watch.get(f.name)
+            if cb is not None:
+                cb(self, args)
         fr = Frame(f, loc)
         th.stack.append(fr)
         return fr
